@@ -21,6 +21,7 @@ condition, `C09_grant_only_if` the property's reading.
 import Restful.Lemmas.Cors
 import Restful.Lemmas.CorsRoutable
 import Restful.Lemmas.StateShape
+import Restful.Lemmas.TieCors
 namespace Restful
 namespace Props
 open Str Cors
@@ -444,6 +445,13 @@ end C09Example
 -- also: Restful.StateShape.consts_shape
 -- also: Restful.StateShape.cors_shape
 -- also: Restful.StateShape.container_shape
+
+/-! The regenerated tie (tools/gotrans → Gen/Translated.lean, Lemmas/Tie*.lean): the origin test and
+    the requested-method / requested-header tests this property's model contains ARE the ones
+    translated from cors_filter.go on this run. -/
+-- also: Restful.Tie.cors_is_origin_allowed
+-- also: Restful.Tie.cors_is_valid_request_method
+-- also: Restful.Tie.cors_is_valid_request_header
 
 end Props
 end Restful
